@@ -86,7 +86,8 @@ def main():
             rc, out = sh(["patch", "-p1", "-i", patch], cwd=wt)
         assert rc == 0, "patch does not apply: " + out[-1500:]
         if "src/" in ptext:
-            rc, out = sh([PY, "setup.py", "-q", "build_ext", "--inplace", "-j8"], cwd=wt)
+            # --force: files that are only #include'd (bignum.c, multiply_64.c ...) are not tracked as dependencies
+            rc, out = sh([PY, "setup.py", "-q", "build_ext", "--inplace", "--force", "-j8"], cwd=wt)
             assert rc == 0, "patched tree does not build: " + out[-2000:]
         rc_patched, out_patched = sh([PY, demo], cwd=wt, env=env, timeout=1800)
         meta["demo_patched_exit"] = rc_patched
